@@ -69,7 +69,7 @@ def pair_rule(ck, P, reader_suffix, name):
             if pos_i is None:
                 continue
             for i, s in enumerate(sts):
-                inc = [y for y in ir.walk_nodes(s) if y.get("k") == "mcall" and y.get("name") == "include_coord" and ir.place_str(y["recv"]) == "bbox_pyramid"]
+                inc = [y for y in _unconditional_nodes(s) if y.get("k") == "mcall" and y.get("name") == "include_coord" and ir.place_str(y["recv"]) == "bbox_pyramid"]
                 if inc and ir.local_hid(inc[0]["a"][0]) == ch and ch is not None and abs(i - pos_i) <= 2:
                     okp = True
         ck.check(okp, "R-COVER-PAIR", "%s|insert#%d" % (b["q"], k + 1), "tile_map.insert(coord, ..) is paired with bbox_pyramid.include_coord(&coord) of the same binding",
@@ -91,6 +91,20 @@ def pair_rule(ck, P, reader_suffix, name):
     later = [(bb["q"], n["name"]) for bb in P.bodies if bb.get("self_adt") == adt and bb is not b for n in ir.walk_nodes(bb["body"])
              if n.get("k") == "mcall" and ir.place_str(n["recv"]) == "self.tile_map" and n["recv"].get("ta", "").startswith("&mut")]
     ck.check(not later, "R-COVER-PAIR", adt + "|frozen", "the map is not modified after opening", "map modified after open: %s" % later)
+
+
+def _unconditional_nodes(s):
+    """nodes evaluated whenever statement s is (no descent into if / match / loops / closures / nested blocks)"""
+    out = []
+
+    def go(n):
+        if n is None or n.get("k") in ("if", "match", "for", "while", "loop", "closure"):
+            return
+        out.append(n)
+        for c in ir.children(n):
+            go(c)
+    go(s)
+    return out
 
 
 def rules(ck, P):
